@@ -1,0 +1,43 @@
+//go:build verif
+
+package sftp
+
+import (
+	sshfx "github.com/pkg/sftp/internal/encoding/ssh/filexfer"
+)
+
+// VerifDecBInitVersion decodes the body of an SSH_FXP_INIT or SSH_FXP_VERSION frame (type byte first) with codec B's
+// InitPacket / VersionPacket decoders.
+func VerifDecBInitVersion(body []byte) (p *VerifPacket, errKind string, panicked bool) {
+	defer func() {
+		if r := recover(); r != nil {
+			p, errKind, panicked = nil, "panic", true
+		}
+	}()
+	if len(body) < 1 {
+		return nil, "short", false
+	}
+	switch body[0] {
+	case byte(sshfx.PacketTypeInit):
+		var x sshfx.InitPacket
+		if err := x.UnmarshalBinary(body[1:]); err != nil {
+			return nil, VerifErrKind(err), false
+		}
+		p = &VerifPacket{Kind: "init", N1: uint64(x.Version)}
+		for _, e := range x.Extensions {
+			p.Pairs = append(p.Pairs, [2]string{e.Name, e.Data})
+		}
+	case byte(sshfx.PacketTypeVersion):
+		var x sshfx.VersionPacket
+		if err := x.UnmarshalBinary(body[1:]); err != nil {
+			return nil, VerifErrKind(err), false
+		}
+		p = &VerifPacket{Kind: "version", N1: uint64(x.Version)}
+		for _, e := range x.Extensions {
+			p.Pairs = append(p.Pairs, [2]string{e.Name, e.Data})
+		}
+	default:
+		return nil, "other", false
+	}
+	return p, "ok", false
+}
